@@ -43,9 +43,19 @@ def cases(tier, seed, flavour):
             yield {'part': 'lapack-large', 'lo': i, 'hi': i + 5}
     yield {'part': 'buffer-import'}
     yield {'part': 'sparse-resize'}
+    # the sparse constructors size their result in a counting pass and fill it in a second pass (sparse() of block lists,
+    # spdiag(), spmatrix() from triplets): the constructor enumeration of C16 (real / complex blocks, purely imaginary and
+    # zero entries, numbers as 1x1 blocks) run here for its memory behaviour only - malloc checker / sanitizer / survival
+    for k in range(4):
+        yield {'part': 'sparse-construct', 'what': 'blocks', 'k': k}
+    yield {'part': 'sparse-construct', 'what': 'spdiag'}
+    yield {'part': 'sparse-construct', 'what': 'ctor'}
     # every lapack wrapper with small offsets / leading dimensions / orders on exactly sized operands
     for i in range(0, 70, 5):
         yield {'part': 'lapack-small', 'lo': i, 'hi': i + 5}
+    # ... and with every flag value, each matrix argument in turn one column / one row short or reduced to one column
+    for i in range(0, 70, 3):
+        yield {'part': 'lapack-shapes', 'lo': i, 'hi': i + 3}
     for k in ('scale', 'scale2', 'pack', 'pack2', 'unpack', 'symm', 'sprod', 'sinv', 'trisc', 'triusc', 'sdot', 'max_step'):
         yield {'part': 'kernel-short', 'k': k}
     for f in ('gemm', 'gemv', 'syrk', 'symv', 'axpy'):
@@ -706,6 +716,97 @@ def run_lapack_small(case):
     return {'n': n, 'nontrivial': nt, 'viol': viol, 'outcomes': outcomes}
 
 
+LFLAGS = {'jobz': ['N', 'V'], 'uplo': ['L', 'U'], 'trans': ['N', 'T', 'C'], 'range': ['A', 'V', 'I'],
+          'jobu': ['N', 'A', 'S', 'O'], 'jobvt': ['N', 'A', 'S', 'O'], 'side': ['L', 'R'], 'diag': ['N', 'U'], 'itype': [1, 2, 3]}
+LFLAGS_FN = {('gesdd', 'jobz'): ['N', 'A', 'S', 'O'], ('lacpy', 'uplo'): ['N', 'L', 'U']}
+LOPTMAT = ('ipiv', 'w', 'a', 'b', 'V', 'Vl', 'Vr', 'U', 'Vt', 'Z')
+
+
+def run_lapack_shapes(case):
+    """every lapack wrapper x every value of every flag keyword x (all matrix arguments of the order-4 template, or one of
+    them - positional or optional output - with its last column removed / its last row removed / reduced to its first
+    column): the wrapper either refuses the call or stays inside the operands.  Selection ranges are opened so that every
+    eigenvalue is selected (range='V': (-100, 100]; range='I': 1..n), i.e. the routine produces all the output it can."""
+    import itertools
+    from cvxopt import lapack, matrix
+    names = sorted(n for n in dir(lapack) if not n.startswith('_') and callable(getattr(lapack, n)))
+    viol = []
+    n_ev = nt = 0
+    outcomes = {}
+    N = 4
+    for nm in names[case['lo']:case['hi']]:
+        fn = getattr(lapack, nm)
+        sg = _lapack_sig(fn)
+        if sg is None:
+            continue
+        pos, kws = sg
+        kwn = [k for k, d in kws]
+        tc = 'z' if nm[:2] in ('he', 'un') else 'd'
+        flags = [(k, LFLAGS_FN.get((nm, k), LFLAGS[k])) for k in kwn if k in LFLAGS]
+        optm = [k for k in kwn if k in LOPTMAT]
+
+        def mk(name):
+            if name in ('ipiv', 'jpvt'):
+                return matrix(list(range(1, N + 1)), (N, 1), 'i')
+            if name in ('tau', 'dl', 'du', 'du2', 'e', 'x', 'v'):
+                return matrix([2.0 + i for i in range(N)], (N, 1), tc)
+            if name == 'd':
+                return matrix([4.0 + i for i in range(N)], (N, 1), 'd')
+            if name in ('W', 'S'):
+                return matrix(0.0, (N, 1), 'd')
+            if name in ('w', 'a'):
+                return matrix(0.0, (N, 1), 'z')
+            if name == 'b':
+                return matrix(0.0, (N, 1), 'd')
+            if name == 'alpha':
+                return matrix([1.5], (1, 1), tc)
+            if name in ('kl', 'ku', 'kd', 'k'):
+                return 1
+            if name == 'm':
+                return N
+            return matrix([(4.0 + i // (N + 1)) if i % (N + 1) == 0 else (0.5 if (i // N + i % N) % 2 else -0.25) for i in range(N * N)], (N, N), tc)
+
+        def shrink(M, how):
+            if not hasattr(M, 'size'):
+                return M
+            r, q = M.size
+            if how == 'lastcol':
+                return M[:, :q - 1] if q > 1 else M[:r - 1, :]
+            if how == 'lastrow':
+                return M[:r - 1, :]
+            return M[:, 0]
+
+        matnames = [a for a in pos if hasattr(mk(a), 'size')] + optm
+        plan, groups = [], []
+        for vals in itertools.product(*[dom for _, dom in flags]):
+            fl = dict(zip([k for k, _ in flags], vals))
+            if fl.get('range') == 'V':
+                fl.update({'vl': -100.0, 'vu': 100.0})
+            if fl.get('range') == 'I':
+                fl.update({'il': 1, 'iu': N})
+            for victim in [None] + matnames:
+                for how in (('lastcol', 'lastrow', 'firstcol') if victim else (None,)):
+                    def call(fl=fl, victim=victim, how=how):
+                        args = [shrink(mk(a), how) if a == victim else mk(a) for a in pos]
+                        kw = dict(fl)
+                        for k in optm:
+                            kw[k] = shrink(mk(k), how) if k == victim else mk(k)
+                        fn(*args, **kw)
+                    plan.append((fl, victim, how, call))
+                    groups.append('%s:%s:%s' % (nm, victim, how))
+        results = _forked_batch([c_ for (_, _, _, c_) in plan], groups=groups)
+        for (fl, victim, how, _), res in zip(plan, results):
+            n_ev += 1
+            nt += 1 if victim else 0
+            outcomes[res[0]] = outcomes.get(res[0], 0) + 1
+            if res[0] in ('signal', 'timeout'):
+                viol.append({'key': 'C19:lapack.%s:short-%s:interpreter-killed' % (nm, victim or 'none'),
+                             'msg': 'lapack.%s with flags %r and argument %s %s (order-%d template) killed the interpreter (%s %r)'
+                                    % (nm, fl, victim, how, N, res[0], res[1]),
+                             'sub': {'f': nm, 'flags': fl, 'victim': victim, 'how': how}})
+    return {'n': n_ev, 'nontrivial': nt, 'viol': viol[:20], 'outcomes': outcomes}
+
+
 def run_buffer_import(case):
     """matrix(x, tc=...) / spmatrix(x, I, J, tc=...) for buffer exporters of every item width (windows of a larger array, so that
     the words next to the exported items hold a sentinel): the values are those of the exported items, whatever the target
@@ -784,8 +885,36 @@ def run_sparse_resize(case):
     return {'n': n, 'nontrivial': n, 'viol': viol, 'outcomes': {'resizes': n}}
 
 
+def run_sparse_construct(case):
+    import os
+    from checks import C16
+    seed = int(os.environ.get('VERIF_SEED', '0') or 0)
+    c = C16.Ctx()
+    try:
+        if case['what'] == 'blocks':
+            C16.ev_blocks(c, seed, 'thorough', case['k'])
+        elif case['what'] == 'spdiag':
+            C16.ev_spdiag(c, seed, 'thorough')
+        else:
+            for f in C16.FIXED:
+                for tc in 'dz':
+                    C16.ev_ctor(c, [f[0], f[1], tc, f[2]], seed)
+            for (m, n) in C16.SHAPES:
+                for tc in 'dz':
+                    for pat in C16.all_patterns(6)[::7]:
+                        C16.ev_ctor(c, [m, n, tc, pat], seed)
+    except Exception:
+        pass                    # values and exceptions are C16's business; here: no memory error, no killed interpreter
+    r = c.result()
+    return {'n': r.get('n', 0), 'nontrivial': r.get('nontrivial', 0), 'viol': [], 'outcomes': {'sparse-construct:' + case['what']: r.get('n', 0)}}
+
+
 def run(case):
     p = case['part']
+    if p == 'sparse-construct':
+        return run_sparse_construct(case)
+    if p == 'lapack-shapes':
+        return run_lapack_shapes(case)
     if p == 'sparse-resize':
         return run_sparse_resize(case)
     if p == 'buffer-import':
